@@ -95,34 +95,37 @@ SemiAfter(seg, j) ==
 (* Returns 0 when it matches, otherwise the 1-based payload index at which   *)
 (* it first fails (Len+1: trailing garbage in seg).                          *)
 \* One step: the payload character i against the segment at j.  Returns the next j,
-\* or 0 when the segment does not continue as required.
-StepAt(chars, modes, seg, sp, i, j) ==
+\* or 0 when the segment does not continue as required.  With loose = TRUE a
+\* plain-origin special may also appear as itself (used where a property speaks
+\* about WHICH text is stored, not about how it is escaped).
+RefAt(seg, j, c) == /\ seg[j] = AMP
+                    /\ LET k == SemiAfter(seg, j + 1) IN k # 0 /\ RefValue(SubSeq(seg, j + 1, k - 1)) = c
+StepAt(chars, modes, seg, sp, loose, i, j) ==
   IF j > Len(seg) THEN 0
   ELSE IF modes[i] = "raw" \/ chars[i] \notin sp
        THEN IF seg[j] = chars[i] THEN j + 1 ELSE 0
-       ELSE IF seg[j] # AMP THEN 0
-            ELSE LET k == SemiAfter(seg, j + 1) IN
-                 IF k = 0 THEN 0
-                 ELSE IF RefValue(SubSeq(seg, j + 1, k - 1)) = chars[i] THEN k + 1 ELSE 0
+       ELSE IF RefAt(seg, j, chars[i]) THEN SemiAfter(seg, j + 1) + 1
+            ELSE IF loose /\ seg[j] = chars[i] THEN j + 1 ELSE 0
 
 \* The walk is split into blocks of BlockLen payload characters so that TLC's
 \* evaluation depth stays at Len/BlockLen + BlockLen (a plain recursion over a
 \* 2 400-character segment was measured to be quadratic in TLC 1.8).
 BlockLen == 48
 \* walk characters i..hi; result <<next i, next j>> with next j = 0 on failure (next i = failing index)
-RECURSIVE WalkBlock(_, _, _, _, _, _, _)
-WalkBlock(chars, modes, seg, sp, i, j, hi) ==
+RECURSIVE WalkBlock(_, _, _, _, _, _, _, _)
+WalkBlock(chars, modes, seg, sp, loose, i, j, hi) ==
   IF i > hi THEN <<i, j>>
-  ELSE LET nj == StepAt(chars, modes, seg, sp, i, j) IN
-       IF nj = 0 THEN <<i, 0>> ELSE WalkBlock(chars, modes, seg, sp, i + 1, nj, hi)
-RECURSIVE MatchAt(_, _, _, _, _, _)
-MatchAt(chars, modes, seg, sp, i, j) ==
+  ELSE LET nj == StepAt(chars, modes, seg, sp, loose, i, j) IN
+       IF nj = 0 THEN <<i, 0>> ELSE WalkBlock(chars, modes, seg, sp, loose, i + 1, nj, hi)
+RECURSIVE MatchAt(_, _, _, _, _, _, _)
+MatchAt(chars, modes, seg, sp, loose, i, j) ==
   IF i > Len(chars) THEN (IF j = Len(seg) + 1 THEN 0 ELSE i)
   ELSE LET hi == IF i + BlockLen - 1 < Len(chars) THEN i + BlockLen - 1 ELSE Len(chars)
-           r  == WalkBlock(chars, modes, seg, sp, i, j, hi)
-       IN IF r[2] = 0 THEN r[1] ELSE MatchAt(chars, modes, seg, sp, r[1], r[2])
+           r  == WalkBlock(chars, modes, seg, sp, loose, i, j, hi)
+       IN IF r[2] = 0 THEN r[1] ELSE MatchAt(chars, modes, seg, sp, loose, r[1], r[2])
 
-Match(chars, modes, seg, sp) == MatchAt(chars, modes, seg, sp, 1, 1)
+Match(chars, modes, seg, sp) == MatchAt(chars, modes, seg, sp, FALSE, 1, 1)
+MatchLoose(chars, modes, seg, sp) == MatchAt(chars, modes, seg, sp, TRUE, 1, 1)
 AllEsc(s) == [i \in 1..Len(s) |-> "esc"]
 AllRaw(s) == [i \in 1..Len(s) |-> "raw"]
 Inert(p, seg, sp) == Match(p, AllEsc(p), seg, sp) = 0
